@@ -97,7 +97,9 @@ type OptSet struct {
 	A32       int     // -1 default
 }
 
-func DefaultOpts() OptSet { return OptSet{Limit: "default", Reset: -1, Zstd: -1, SpanOrder: -1, A16: -1, A32: -1} }
+func DefaultOpts() OptSet {
+	return OptSet{Limit: "default", Reset: -1, Zstd: -1, SpanOrder: -1, A16: -1, A32: -1}
+}
 
 func (o OptSet) String() string {
 	return fmt.Sprintf("limit=%s reset=%v zstd=%d span=%d a16=%d a32=%d", o.Limit, o.Reset, o.Zstd, o.SpanOrder, o.A16, o.A32)
@@ -208,7 +210,7 @@ func (o *ObsMon) OnSchemaUpdate(recordName string, old, new *arrow.Schema) { o.a
 func (o *ObsMon) OnDictionaryReset(recordName string, fieldPath string, indexType arrow.DataType, card, total uint64) {
 	o.add("reset")
 }
-func (o *ObsMon) OnMetadataUpdate(recordName, metadataKey string)      { o.add("metadata_update") }
+func (o *ObsMon) OnMetadataUpdate(recordName, metadataKey string)   { o.add("metadata_update") }
 func (o *ObsMon) OnRecord(arrow.Record, record_message.PayloadType) { o.add("record") }
 
 func (o *ObsMon) Get(k string) int64 { o.mu.Lock(); defer o.mu.Unlock(); return o.Counts[k] }
@@ -223,7 +225,7 @@ type PanicInfo struct {
 var (
 	reHex  = regexp.MustCompile(`0x[0-9a-fA-F]+`)
 	reNum  = regexp.MustCompile(`\b\d+\b`)
-	reFunc = regexp.MustCompile(`^(github\.com/open-telemetry/otel-arrow/[^\s]+?)\(`)
+	reFunc = regexp.MustCompile(`^(github\.com/open-telemetry/otel-arrow/\S+)\(`)
 )
 
 // Site returns the first repository frame below the panic.
